@@ -156,9 +156,130 @@ def err_closure_close_edges(prog, body, is_close_callee):
     return edges, detail
 
 
+def _result_root(body, op):
+    """the local a Result value lives in, followed back through moves / copies / references"""
+    pl = op_place(op)
+    for _ in range(6):
+        if pl is None or [p for p in pl[1] if p != "*"]:
+            return None
+        d = body.single_def(pl[0])
+        if d is None or d[1] == TERM:
+            return pl[0]
+        rv = d[2]
+        if rv["k"] in ("use", "cast"):
+            nxt = op_place(rv["op"])
+        elif rv["k"] == "ref":
+            nxt = P(rv["place"])
+        else:
+            return pl[0]
+        if nxt is None:
+            return pl[0]
+        pl = nxt
+    return pl[0] if pl else None
+
+
+def _variant_tests(body):
+    """{switch block: (result local, {successor: 'Ok' | 'Err'})} for `if r.is_err()` / `is_ok()` tests and for the
+    Continue / Break test of `r?` - the places where a path learns, or must respect, which variant a Result holds"""
+    out = {}
+    for b, t in body.calls():
+        if "fn" not in t or not t.get("args") or not t.get("dest") or t["dest"][1] or t.get("t") is None:
+            continue
+        c = Callee(t["fn"])
+        last = c.path.split("::")[-1]
+        if last in ("is_err", "is_ok") and "Result" in c.path:
+            r = _result_root(body, t["args"][0])
+            if r is None:
+                continue
+            x = t["t"]
+            for _ in range(4):
+                st = body.term(x)
+                if st["k"] == "switch":
+                    o = origin(body, st["op"], carriers={})
+                    neg = o[0] == "rv" and o[1].get("k") == "unop" and o[1].get("op") == "Not"
+                    if neg:
+                        o = origin(body, o[1]["a"], carriers={})
+                    if o[0] == "call" and o[1] == b:
+                        tt, ft = switch_targets_bool(st)
+                        yes, no = ("Err", "Ok") if last == "is_err" else ("Ok", "Err")
+                        if neg:
+                            yes, no = no, yes
+                        out[x] = (r, {tt: yes, ft: no})
+                    break
+                if st["k"] == "goto":
+                    x = st["t"]
+                else:
+                    break
+        elif c.decl_path == "std::ops::Try::branch":
+            r = _result_root(body, t["args"][0])
+            sw = find_switch_on_discr(body, t["t"], t["dest"][0]) if r is not None else None
+            if sw:
+                m = {tgt: ("Ok" if v == 0 else "Err") for v, tgt in sw[1]["vals"]}
+                if sw[1]["otherwise"] not in m and len(m) == 1:
+                    m[sw[1]["otherwise"]] = "Err" if "Ok" in m.values() else "Ok"
+                out[sw[0]] = (r, m)
+    return out
+
+
 def escapes(body, open_site, close_sites, closed_edges=(), exits=None):
     """Paths from just after `open_site` to a return that avoid every close site.
-    Returns a list of block paths (each a list of bbs ending at a `ret`)."""
+    Returns a list of block paths (each a list of bbs ending at a `ret`).  A path that tested a Result with
+    is_err() / is_ok() keeps to the matching edge when the same Result is propagated with `?` later on."""
+    vt = _variant_tests(body)
+    if len({r for (r, _m) in vt.values()}) < len(vt):
+        # some Result is tested twice: search over (block, what the path knows) states
+        closes = {}
+        for (bb, idx) in close_sites:
+            closes.setdefault(bb, []).append(pos_of(body, (bb, idx)))
+        closed = set(closed_edges)
+        bb0, _ = open_site
+        p0 = pos_of(body, open_site)
+        if any(p > p0 for p in closes.get(bb0, [])):
+            return []
+        out, parent, work = [], {}, []
+
+        def step(b, facts):
+            res = []
+            for s2 in body.succ[b]:
+                if (b, s2) in closed:
+                    continue
+                f2 = facts
+                if b in vt:
+                    r, m = vt[b]
+                    v = m.get(s2)
+                    known = dict(facts).get(r)
+                    if v is not None and known is not None and known != v:
+                        continue  # infeasible: the path already knows the other variant
+                    if v is not None and known is None:
+                        f2 = frozenset(dict(facts, **{r: v}).items()) if False else frozenset(list(facts) + [(r, v)])
+                res.append((s2, f2))
+            return res
+
+        for st0 in step(bb0, frozenset()):
+            if st0 not in parent:
+                parent[st0] = None
+                work.append(st0)
+        steps = 0
+        while work and steps < 60000:
+            steps += 1
+            cur = work.pop()
+            b, facts = cur
+            if b in closes:
+                continue
+            t = body.term(b)
+            if t["k"] == "ret" or (exits and b in exits):
+                path, x = [b], cur
+                while parent.get(x) is not None and len(path) < 400:
+                    x = parent[x]
+                    path.append(x[0])
+                path.append(bb0)
+                out.append(list(reversed(path)))
+                continue
+            for nxt in step(b, facts):
+                if nxt not in parent:
+                    parent[nxt] = cur
+                    work.append(nxt)
+        return out
     closes = {}
     for (bb, idx) in close_sites:
         closes.setdefault(bb, []).append(pos_of(body, (bb, idx)))
